@@ -26,7 +26,7 @@ GW = [0.2, 0.5, 0.3]
 
 DIMS = {
     'N': [3, 1, 2, 5],
-    'T': [['dec'], ['iso', 800.0], ['iso', 2000.0], ['inc'], ['hot1'], ['outside']],
+    'T': [['dec'], ['iso', 800.0], ['iso', 2000.0], ['inc'], ['hot1'], ['outside'], ['steps'], ['grad-iso']],
     'mag': ['tau1', 'zero', 'thin', 'mixed', 'sat'],
     'ngauss': [2, 1, 3, 4, 6, 101, 128],        # (beyond 100 points: another node routine may take over)
     'contribs': [['abs'], ['abs', 'cia'], ['abs', 'ray'], [], ['abs', 'cia', 'ray'], ['ray', 'cia'], ['ray', 'abs'],
